@@ -21,6 +21,7 @@ TV : (thorough, and a small run in quick) a seeded random driver over many reque
 import os
 import re
 from lib import *
+import c17fs
 
 QUICK = ["MC_C17_quick.cfg", "MC_C17_quick_life.cfg"]
 THOROUGH = ["MC_C17_quick.cfg", "MC_C17_life.cfg", "MC_C17_three.cfg", "MC_C17_two.cfg"]
@@ -185,7 +186,11 @@ def run(tier, replay=None):
     roots = {"by_key": {}, "by_root": {}}
     total = 0
     cfgs = QUICK if tier == "quick" else THOROUGH
-    if replay:
+    fs_replay = (bool(replay) and json.load(open(replay))["case"].get("leg") in ("fs", "fs_spec")) or \
+        (not replay and os.environ.get("VERIF_C17_ONLY") == "fs")          # debugging aid: only the filesystem leg
+    if fs_replay:
+        total = -1          # a replay of the filesystem leg (runner/c17fs.py): the main legs are skipped
+    elif replay:
         obj = json.load(open(replay))["case"]
         cin = write_ndjson(os.path.join(WORK, "c17.replay.cases"), obj["cases"])
         cout = os.path.join(WORK, "c17.replay.results")
@@ -223,7 +228,7 @@ def run(tier, replay=None):
         trace_leg(ck, binp, tier, stats)
     if total == 0:
         raise ToolError("nothing replayed")
-    ck.cov["traces_validated_against_impl"] += total
+    ck.cov["traces_validated_against_impl"] += max(total, 0)
     ck.cov["evaluations"] = stats["checks"]
     ck.cov["distinct_nontrivial"] = stats["nontrivial"]
     ck.cov["behaviours_with_fault_or_crash"] = stats["faulty"]
@@ -255,4 +260,5 @@ def run(tier, replay=None):
         "(BLAKE3 collision-freeness for the => direction)",
         "argument variants are single-defect (one invalid field at a time), taken from the rejection reasons in external_action.rs",
     ]
+    c17fs.run_leg(ck, binp, tier, replay)          # filesystem store + physical crash (keys fs:...)
     return ck.finish()
